@@ -99,7 +99,27 @@ def scan_forbidden():
     return hits
 
 
-def build_coq(props_file):
+def build_coq(props_files):
+    """Builds the Props files of a property (one name or a list) and merges the audits."""
+    if isinstance(props_files, str):
+        return build_coq_one(props_files)
+    res = None
+    for pf in props_files:
+        r = build_coq_one(pf)
+        if res is None:
+            res = r
+        else:
+            res["obligations"] += r["obligations"]
+            res["discharged"] += r["discharged"]
+            res["theorems"] += r["theorems"]
+            if not r["ok"] and res["ok"]:
+                res["ok"] = False
+                res["detail"] = r["detail"]
+                res["failing"] = r["failing"]
+    return res
+
+
+def build_coq_one(props_file):
     """Builds theories/Props/<props_file>.vo (full .vo build) and audits its output.
     Returns dict(ok, obligations, discharged, detail, failing)."""
     ensure_coq_makefile()
